@@ -40,6 +40,13 @@ Definition drops_at (c : cfg) (j : nat) (it : item) : bool := sc_filter (stage_a
 Definition sval (j : nat) (v : Z) : Z := v * 16 + Z.of_nat j + 1.          (* what stage j computes (harness/h_pipeline.cpp) *)
 Definition exc_id (j : nat) (it : item) : Z := (Z.of_nat j + 1) * 1000 + fst it.
 
+(* domains of the known findings of C29 (Properties_C29.v), as predicates on the case *)
+Definition has_throw (c : cfg) : bool :=                       (* some stage, or the generator, can throw *)
+  (0 <=? c_gthrow c) || existsb (fun sc => match sc_throws sc with [] => false | _ => true end) (c_stages c).
+Definition leak_domain (c : cfg) : bool := has_throw c.
+Definition hang_domain (c : cfg) : bool := has_throw c && (1 <? ninst c).            (* ... and >= 2 generator instances *)
+Definition escape_domain (c : cfg) : bool := has_throw c && (c_plf c <? ninst c - 1). (* ... and an instance can run inline in execute() *)
+
 (* the value with which item [tag] arrives at stage j *)
 Fixpoint chain (j : nat) (tag : Z) : Z := match j with O => tag | S m => sval m (chain m tag) end.
 
